@@ -207,7 +207,11 @@ func genRec(t *rapid.T, nNames int, maxData int) Rec {
 	case "AAAA":
 		n = 16
 	case "TXT", "UNK":
-		n = rapid.IntRange(0, maxData).Draw(t, "dlen")
+		lo := 0
+		if maxData > 1000 {
+			lo = maxData / 2
+		}
+		n = rapid.IntRange(lo, maxData).Draw(t, "dlen")
 	}
 	if n > 64 {
 		// long opaque data: a drawn pattern, repeated (drawing tens of thousands of octets is slow)
@@ -277,6 +281,7 @@ func Gen(t *rapid.T, o Opts) Spec {
 		maxData = 8
 	case shape == 1 && o.Big:
 		maxData = rapid.SampledFrom([]int{2000, 8000, 16000, 20000}).Draw(t, "big")
+		nAn, nNs = max(nAn, 1), max(nNs, 1)
 	case shape == 2:
 		nAn, nNs, nEx = 0, 0, 0 // bare query
 	}
